@@ -354,7 +354,7 @@ theorem refineWildNone (P : Prims) : ∀ (fields : Items) (ve : VExpr) (env : En
       | none => simp [hr] at hroot
       | some f =>
         simp only [expandWildFields, hr, execs]
-        have hev := evalV_wildField P env ve f o hr hnd
+        have hev := evalV_wildField P env ve o.rootFieldSp f o hr hnd
         rw [h] at hev
         have hnone := evalV_none_of_map_none P env _ hev
         cases ht : o.tailOps? with
@@ -427,7 +427,7 @@ theorem refineWild (P : Prims) : ∀ (fields : Items) (ve : VExpr) (env : Env) (
         have htail := refineWild P tl ve env x htl hx
         simp only [expandWildFields, hr, execs, frontierFields, htail]
         congr 1
-        have hev := evalV_wildField P env ve f o hr hnd
+        have hev := evalV_wildField P env ve o.rootFieldSp f o hr hnd
         rw [hx] at hev
         simp only [Option.bind_some] at hev
         have key_ : ∀ (vexp : VExpr), (evalV P env vexp).map (·.v) = fieldSub P x.v o →
